@@ -113,6 +113,12 @@ func checkFrontendAccessWidths(c *core.Ctx, rule string) {
 	isSetup := func(f *types.Func) bool { return setupFns[f] }
 	isRange := func(f *types.Func) bool { return rangeFns[f] }
 	tags := switchTagVars(info, d.Body)
+	helperOf := func(f *types.Func) *ast.FuncDecl {
+		if f.Pkg() != p.Types {
+			return nil
+		}
+		return declOf(p, f)
+	}
 	emitsAccess := func(n ast.Node) []string {
 		var out []string
 		ast.Inspect(n, func(x ast.Node) bool {
@@ -145,7 +151,7 @@ func checkFrontendAccessWidths(c *core.Ctx, rule string) {
 			if w := specWidth(name); w > 0 {
 				handled = true
 				n++
-				ev := &armEval{info: info, label: obj, tags: tags, want: isSetup, sizeOf: ssaTypeBytes}
+				ev := &armEval{info: info, label: obj, tags: tags, want: isSetup, sizeOf: ssaTypeBytes, helper: helperOf}
 				ev.run(cc.Body, map[types.Object]aval{})
 				construct := "frontend arm " + name + " checks " + strconv.Itoa(w) + " byte(s)"
 				if len(ev.calls) == 0 {
@@ -177,7 +183,7 @@ func checkFrontendAccessWidths(c *core.Ctx, rule string) {
 			case "OpcodeMiscMemoryCopy", "OpcodeMiscMemoryFill", "OpcodeMiscMemoryInit":
 				handled = true
 				n++
-				ev := &armEval{info: info, label: obj, tags: tags, want: isRange, sizeOf: ssaTypeBytes}
+				ev := &armEval{info: info, label: obj, tags: tags, want: isRange, sizeOf: ssaTypeBytes, helper: helperOf}
 				ev.run(cc.Body, map[types.Object]aval{})
 				need := 1
 				if name == "OpcodeMiscMemoryCopy" {
@@ -536,6 +542,65 @@ func checkBackendMemOperandWidths(c *core.Ctx) {
 						return true
 					})
 				}
+			}
+			return true
+		})
+		// the same arms written as an if/else-if chain: `if op == ssa.OpcodeUload8 { … }`
+		widthOfLabel := func(nm string) int {
+			if b, ok := typeBytes[nm]; ok {
+				return b
+			} else if b, ok := laneBytes[nm]; ok {
+				return b
+			} else if b, ok := extLoadByte[nm]; ok {
+				return b
+			}
+			return 0
+		}
+		ast.Inspect(fd.Body, func(x ast.Node) bool {
+			is, ok := x.(*ast.IfStmt)
+			if !ok {
+				return true
+			}
+			need := 0
+			var labels []string
+			ast.Inspect(is.Cond, func(y ast.Node) bool {
+				if be, ok := y.(*ast.BinaryExpr); ok && be.Op == token.EQL {
+					for _, side := range []ast.Expr{be.X, be.Y} {
+						if nm := constNameOf(info, side); nm != "" {
+							if w := widthOfLabel(nm); w > 0 {
+								labels = append(labels, nm)
+								if need != 0 && need != w {
+									need = -1
+								} else if need == 0 {
+									need = w
+								}
+							}
+						}
+					}
+				}
+				return true
+			})
+			if need <= 0 {
+				return true
+			}
+			for _, st := range is.Body.List {
+				ast.Inspect(st, func(y ast.Node) bool {
+					switch y.(type) {
+					case *ast.SwitchStmt, *ast.IfStmt:
+						return false
+					}
+					call, ok := y.(*ast.CallExpr)
+					if !ok || !usesMem(call) {
+						return true
+					}
+					if w := emitterWidth(info, call); w > 0 {
+						n++
+						if w != need {
+							bad = append(bad, fmt.Sprintf("branch %s accesses %d byte(s) through `%s` at %s, the branch's width is %d", strings.Join(labels, ","), w, core.ExprStr(call.Fun), c.Pos(call.Pos()), need))
+						}
+					}
+					return true
+				})
 			}
 			return true
 		})
@@ -904,8 +969,11 @@ func checkElisionMerge(c *core.Ctx, rule string) {
 		ast.Inspect(fd.Body, func(x ast.Node) bool {
 			if call, ok := x.(*ast.CallExpr); ok {
 				if f := core.Callee(info, call); f != nil {
-					if f.Name() == "Pred" {
-						readsPred = true
+					if f.Name() == "Pred" && len(call.Args) == 1 {
+						// the merge reads EVERY predecessor (a variable index); a helper for the sole-predecessor case reads Pred(0)
+						if _, isK := core.ConstVal(info, call.Args[0]); !isK {
+							readsPred = true
+						}
 					}
 					if f.Name() == "recordKnownSafeBound" {
 						records = true
